@@ -118,6 +118,8 @@ package stage
 //@   before call isCompanionComplete assert completeness-of-written-record: called(writeCompanion) && lastret(writeCompanion, 0) == nil && arg0 == lastret(newLocalCompanion, 0)
 //@   before call os.Rename assert record-before-rename: called(isCompanionComplete) && lastret(isCompanionComplete, 0) && arg0 == pathjoin(s.rootDir, file.Name)+partExt && arg1 == pathjoin(s.rootDir, file.Name)+fullExt
 //@   before call os.Rename assert complete-duplicate-ignored: !(existing != nil && existing.state != stateFailed && existing.hash == file.Hash)
+//@   before call os.Rename assert duplicate-check-under-lock: called((*Stage).fromCache) && existing == lastret((*Stage).fromCache, 0) && heldsince(lock, (*Stage).fromCache) && ncalls((*Stage).fromCache) == 1
+//@   before call os.Remove assert duplicate-check-under-lock: called((*Stage).fromCache) && existing == lastret((*Stage).fromCache, 0) && heldsince(lock, (*Stage).fromCache) && ncalls((*Stage).fromCache) == 1
 //@   before call (*Stage).toCache(_, _, stateReceived) assert received-after-rename: called(os.Rename) && lastret(os.Rename, 0) == nil
 //@   before call (*Stage).toCache assert caches-received-or-failed: arg2 == stateReceived || (arg2 == stateFailed && called(os.Rename) && lastret(os.Rename, 0) != nil)
 //@   before go (*Stage).processQueue assert validates-what-was-received: called((*Stage).toCache) && lastarg((*Stage).toCache, 2) == stateReceived && arg1 == lastarg((*Stage).toCache, 1)
